@@ -13,7 +13,7 @@ import json
 import os
 
 from checks import common
-from checks.c16 import (native_abort_under_concurrent_update, abort_case, reproduces, private_bin, run_parallel, run_engine, gen_spec, render_steel, oracle, scan_sources, gen_coq)
+from checks.c16 import (native_abort_under_concurrent_update, transient_empty_global_table, empty_table_case, abort_case, reproduces, private_bin, run_parallel, run_engine, gen_spec, render_steel, oracle, scan_sources, gen_coq)
 
 
 # ---- known-finding classes (decidable over the failing-input description this check produces)
@@ -175,6 +175,11 @@ def run(ck):
         if ab:
             ck.failing_input("%s run (JIT on, delays %s): host aborted with a panic inside native code" % (kind, delay), dict(ab, delay=delay), tag="abort")
             continue
+        et = empty_table_case(ck, d, (payload[1] if kind == "generated" else payload), jit, delay)
+        if et:
+            ck.failing_input("%s run (JIT %s, delays %s): a thread ran on the emptied global table (a global read as #<void>)"
+                             % (kind, "on" if jit else "off", delay), et, tag="void")
+            continue
         if d.get("hang") or "crash" in d:
             ck.failing_input("%s run (JIT %s, delays %s) did not complete: %s" % (kind, "on" if jit else "off", delay, json.dumps(d.get("hang") or d.get("crash"))[:200]),
                              dict(base, kind="hang", units=(payload[1] if kind == "generated" else payload)), tag="hang")
@@ -211,6 +216,15 @@ def run(ck):
             if answered == 0:
                 ck.failing_input("recycled-define program produced no answer: %s" % json.dumps((d.get("res") or [None])[-1])[:200],
                                  dict(base, kind="error", units=payload), tag="err")
+            if fails:
+                # one unbound answer can also be the rare empty-table race of the open exit window: a defect of
+                # definition visibility shows up again when the same program is run again
+                rep = reproduces(ck, payload, jit, None, lambda r: bool(recycled_define_failures(r)))
+                if not rep:
+                    ck.failing_input("recycled-define run (JIT %s): one transient unbound answer (%s), not seen again in 3 re-runs"
+                                     % ("on" if jit else "off", fails[0]),
+                                     dict(base, kind="transient-empty-global-table", reproduced=False, units=payload), tag="void")
+                    fails = []
             for f in fails[:3]:
                 ck.failing_input("definition not seen by a live thread (JIT %s): %s" % ("on" if jit else "off", f),
                                  dict(base, kind="define-not-visible", fail=f, units=payload), tag="vis")
